@@ -361,6 +361,23 @@ func (w *Workload) opRemoveSelector(h int64) (*Intent, bool) {
 		return nil, false
 	}
 	s := Pick(w.r, sels)
+	// removal by others is only possible for selectors of a reporter that is over the cap (after governance lowered
+	// it): prefer those, so that the removal exception is exercised and not only its refusal
+	if rp, err := w.v.n.App.ReporterKeeper.Params.Get(w.v.ctx); err == nil && w.r.Chance(0.7) {
+		n := map[string]int{}
+		for _, x := range sels {
+			n[string(x.Reporter)]++
+		}
+		var over []SelectorInfo
+		for _, x := range sels {
+			if uint64(n[string(x.Reporter)]) > rp.MaxSelectors {
+				over = append(over, x)
+			}
+		}
+		if len(over) > 0 {
+			s = Pick(w.r, over)
+		}
+	}
 	return w.newIntent(a, MsgSpec{K: "remove_selector", T: s.Actor}), true
 }
 
